@@ -485,13 +485,13 @@ Definition ex_path : list prec :=
         [(1, [0; 16777216; -16777216; 8388608; 2147483647; -2147483648]); (2, [1; 2; 3; 4; 5; 6])];
    PRec 7 [1; 2; 3; 4; 5]; PSub 3 [3; 65535; 4294967295; 7; 1; 2; 3; 4; 5; 6; 7; 8; 9; 10] []].
 Example vector_mask_roundtrip_satisfiable :
-  forallb wf_prec ex_path = true /\ exists bs, write_vmask 3 5 ex_path = Ok (bs, 192) /\ len bs = 192.
-Proof. split; [vm_compute; reflexivity|]. eexists. split; vm_compute; reflexivity. Qed.
+  forallb wf_prec ex_path = true /\ exists bs n, write_vmask 3 5 ex_path = Ok (bs, n) /\ n = 192.
+Proof. split; [vm_compute; reflexivity|]. do 2 eexists. split; [vm_compute; reflexivity|reflexivity]. Qed.
 
 (* what the guards exclude: only version 3 is read back (the writer emits any version) *)
 Theorem vector_mask_roundtrip_refuted :
   exists bs n, write_vmask 2 0 [] = Ok (bs, n) /\ read_vmask bs = Err AssertErr.
-Proof. do 2 eexists. split; vm_compute; reflexivity. Qed.
+Proof. exists [0; 0; 0; 2; 0; 0; 0; 0], 8. split; vm_compute; reflexivity. Qed.
 Print Assumptions vector_mask_roundtrip_refuted.
 
 (* back-patching the length = emitting the inner bytes after the packed length *)
